@@ -20,6 +20,7 @@ Bounded-exhaustive exploration of the real ``pyunicorn.core.ResNetwork``:
             with a freshly constructed network of the current resistances
 """
 import itertools
+import math
 from fractions import Fraction
 
 import numpy as np
@@ -432,7 +433,7 @@ def fam_history(case):
                     (n, mask))
 
 
-def _history(n, linksets, updates, plans, states, ident):
+def _history(n, linksets, updates, plans, states, ident, er_rtol=RT):
     mats = [np.array(C.matrix_of(n, lk)) for lk in linksets]
     viol, stats = [], {}
     # twins: a fresh network per assignment, itself held to the exact model
@@ -442,7 +443,7 @@ def _history(n, linksets, updates, plans, states, ident):
         ref = _stateless(t, n)
         E = np.array([[float(x) for x in r]
                       for r in C.effective_resistance_matrix(n, lk)])
-        if not _close(ref["effective_resistance"], E):
+        if not _close(ref["effective_resistance"], E, rtol=er_rtol):
             viol.append(V("ResNetwork.effective_resistance:value:real",
                           "fresh twin differs from exact rational solution",
                           ref["effective_resistance"], E))
@@ -741,7 +742,297 @@ def _scale_hist(updates):
     return _history(n, linksets, updates, plans, states, ("ring12",))
 
 
+WIDE = {"dumbbell-1e5": lambda: C.dumbbell(10 ** 5),
+        "dumbbell-1e6": lambda: C.dumbbell(10 ** 6),
+        "dumbbell-1e7": lambda: C.dumbbell(10 ** 7),
+        "chain3-1-1e7": C.wide_chain3, "chain4-1e-3-1-1e7": C.wide_chain4,
+        "star-1e-3..1e6": C.wide_star}
+WR = "wide-range"
+EPS64 = 2.0 ** -52
+BETW_CAP = 1e-3      # a betweenness is a share of the unit current in [0,1]
+
+
+def _spectrum(Y):
+    Lf = np.diag(Y.sum(axis=1)) - Y
+    lam, U = np.linalg.eigh(Lf)
+    return lam, U
+
+
+def _wide_rel(lam):
+    """Relative accuracy a backward stable inversion of this Laplacian can
+    deliver: 16 eps x (largest / smallest non-zero eigenvalue)."""
+    return max(RT, 16 * EPS64 * lam[-1] / lam[1])
+
+
+def _check_R(net, n, P, lam, U, rel, what, viol, describe):
+    """The pseudo-inverse the object keeps, against the exact one.  Returns
+    True when it had to be replaced."""
+    from scipy import sparse
+    Rlib = np.asarray(net.get_R(), dtype=float)
+    pmax = float(np.max(np.abs(P)))
+    if Rlib.shape == (n, n) and np.all(np.abs(Rlib - P) <= rel * pmax):
+        return False
+    key = "ResNetwork.get_R:value:real:" + WR
+    extra = ""
+    if Rlib.shape == (n, n):
+        q = np.array([U[:, k] @ Rlib @ U[:, k] for k in range(1, n)])
+        inv = 1.0 / lam[1:]
+        dropped = np.abs(q) < 1e-6 * inv
+        fine = np.abs(q - inv) <= 1e-5 * inv
+        if np.any(dropped) and np.all(dropped | fine):
+            thr = float(np.max(lam[1:][dropped]) / lam[-1])
+            extra = ("; %d genuine mode(s) of the Laplacian discarded, "
+                     "eigenvalue / largest eigenvalue up to %.3g" % (
+                         int(dropped.sum()), thr))
+            key = ("ResNetwork.get_R:value:mode-below-1e-10-discarded"
+                   if thr < 1.01e-10 else
+                   "ResNetwork.get_R:value:genuine-mode-discarded")
+    viol.append(V(key, "%s%s; %s" % (what, extra, describe(net)),
+                  float(np.max(np.abs(Rlib))) if Rlib.size else None, pmax))
+    net.sparse_R = sparse.lil_matrix(P)
+    return True
+
+
+def _betw(viol, name, what, got, exp, f32, pmax):
+    """exp/got/f32 arrays.  Accepted: float32 tolerance plus the error the
+    float32 copy of R explains, but never more than BETW_CAP."""
+    got = np.asarray(got, dtype=float)
+    err = np.abs(got - exp)
+    base = 2e-6 + 2e-5 * np.abs(exp)
+    if got.shape != exp.shape or not np.all(np.isfinite(got)):
+        viol.append(V("ResNetwork.%s:value:real:%s" % (name, WR), what,
+                      got.shape, exp.shape))
+        return
+    bad = err > base + np.minimum(f32, BETW_CAP)
+    if not np.any(bad):
+        return
+    k = tuple(int(x) for x in np.argwhere(bad)[np.argmax(err[bad])])
+    explained = bool(np.all(err <= base + 2 * f32))
+    viol.append(V(
+        "ResNetwork.%s:value:real:%s%s" % (
+            name, WR, "=float32-copy-of-R" if explained else ""),
+        "%s: entry %s; the compiled sum receives float32 copies of the "
+        "pseudo-inverse (entries up to %.3g, float32 spacing %.3g)" % (
+            what, k if len(k) > 1 else int(k[0]), pmax, pmax * EPS32),
+        float(got[k]), float(exp[k])))
+
+
+def _scale_wide(name):
+    n, links = WIDE[name]()
+    what = "%s: %d nodes, resistances %s" % (name, n, {
+        "%d-%d" % k_: str(v) for k_, v in sorted(links.items())})
+    viol, exc = [], {}
+    fl = lambda M: np.array([[float(x) for x in r] for r in M])     # noqa
+    E = fl(C.effective_resistance_matrix(n, links))
+    P = fl(C.pinv_exact(n, links))
+    Y = fl(C.admittance(n, links))
+    lam, U = _spectrum(Y)
+    rel = _wide_rel(lam)
+    weak = max(links, key=lambda k_: links[k_])
+    net = _mk(n, links)
+
+    def describe(nt):
+        er = nt.effective_resistance(*weak)
+        fo = sum(nt.effective_resistance(a, b) / float(r)
+                 for (a, b), r in links.items())
+        return ("on this object effective_resistance%s = %.9g (exact %.9g), "
+                "Foster sum = %.9g (exact %d)" % (weak, er, E[weak], fo,
+                                                  n - 1))
+    ev = 1
+    if _check_R(net, n, P, lam, U, rel, what, viol, describe):
+        what += " (object's pseudo-inverse replaced by the exact one)"
+        exc["derived measures judged after replacing a wrong "
+            "pseudo-inverse"] = 1
+    L = np.array(_er_matrix(net, n), dtype=float)
+    ev += n * n
+    if not np.all(np.abs(L - E) <= rel * np.abs(E) + 1e-12):
+        a, b = np.argwhere(~(np.abs(L - E) <= rel * np.abs(E) + 1e-12))[0]
+        viol.append(V("ResNetwork.effective_resistance:value:real:" + WR,
+                      "%s pair (%d,%d), accepted relative error %.3g" % (
+                          what, a, b, rel), L[a, b], E[a, b]))
+    tol = rel * float(np.max(np.abs(L)))
+    if np.any(np.diag(L) != 0):
+        viol.append(V("ResNetwork.effective_resistance:law:zero-self:" + WR,
+                      what, np.diag(L), 0))
+    if np.any(L[~np.eye(n, dtype=bool)] <= 0):
+        viol.append(V("ResNetwork.effective_resistance:law:positivity:" + WR,
+                      what, L, E))
+    if np.max(np.abs(L - L.T)) > tol:
+        viol.append(V("ResNetwork.effective_resistance:law:symmetry:" + WR,
+                      what, L, E))
+    for b in range(n):
+        ev += n * n
+        if np.any(L > (L[:, [b]] + L[[b], :]) * (1 + 3 * rel) + 1e-12):
+            viol.append(V("ResNetwork.effective_resistance:law:triangle:"
+                          + WR, what, L, "R_ac <= R_ab + R_bc"))
+            break
+    for a in range(n):
+        for b in range(a + 1, n):
+            ev += 1
+            pmin = float(min(C.simple_path_resistances(n, links, a, b)))
+            if L[a, b] > pmin * (1 + rel):
+                viol.append(V("ResNetwork.effective_resistance:law:"
+                              "path-bound:" + WR, "%s pair %s" % (
+                                  what, (a, b)), L[a, b], pmin))
+    foster = sum(L[i, j] / float(r) for (i, j), r in links.items())
+    ev += 1
+    if not abs(foster - (n - 1)) <= 4 * rel * (n - 1):
+        viol.append(V("ResNetwork.effective_resistance:law:foster:" + WR,
+                      what, foster, n - 1))
+    low = [L[i, j] for i in range(n) for j in range(i)]
+    nv = len(viol)
+    _cmp(viol, net, "average_effective_resistance", (),
+         2 * sum(low) / (n * (n - 1)), what, RT, AT)
+    _cmp(viol, net, "diameter_effective_resistance", (), max(low), what, RT,
+         AT)
+    for a in range(n):
+        _cmp(viol, net, "effective_resistance_closeness_centrality", (a,),
+             (n - 1) / sum(L[a, i] for i in range(n)), what, RT, AT)
+    fx = lambda xs: np.array([float(x) for x in xs])               # noqa
+    ad = fx(C.admittive_degree(n, links))
+    _cmp(viol, net, "get_admittance", (), Y, what, RT, AT)
+    _cmp(viol, net, "admittive_degree", (), ad, what, RT, AT)
+    _cmp(viol, net, "average_neighbors_admittive_degree", (),
+         fx(C.avg_neighbours_admittive_degree(n, links)), what, RT, AT)
+    _cmp(viol, net, "local_admittive_clustering", (),
+         fx(C.local_admittive_clustering(n, links)), what, RT, AT)
+    ev += n + 6
+    for v in viol[nv:]:
+        v["key"] += ":" + WR
+    pmax = float(np.max(np.abs(P)))
+    try:
+        vc = [net.vertex_current_flow_betweenness(i) for i in range(n)]
+        _betw(viol, "vertex_current_flow_betweenness", what, vc,
+              fx(C.vertex_cfb(n, links)), 4 * EPS32 * pmax * ad, pmax)
+        ec = net.edge_current_flow_betweenness()
+        _betw(viol, "edge_current_flow_betweenness", what, ec,
+              fl(C.edge_cfb(n, links)), 4 * EPS32 * pmax * Y, pmax)
+        ev += n + 1
+    except Exception as ex:
+        viol.append(V("ResNetwork.vertex_current_flow_betweenness:raises:"
+                      "connected:" + WR, "%s %r" % (what, ex), repr(ex),
+                      None))
+    return {"viol": viol, "evals": ev, "excluded": exc,
+            "sig": (name, float(L[weak]), round(float(foster), 6))}
+
+
+def _scale_longchain(n):
+    """Unit chain: series law |a-b| exactly, closed-form betweenness."""
+    nn, links = C.chain(n)
+    what = "chain of %d unit resistors" % (n - 1)
+    viol, exc = [], {}
+    net = _mk(n, links)
+    Y = np.zeros((n, n))
+    for i in range(n - 1):
+        Y[i, i + 1] = Y[i + 1, i] = 1.0
+    lam, U = _spectrum(Y)
+    assert abs(lam[1] - (2 - 2 * math.cos(math.pi / n))) < 1e-9
+    rel = _wide_rel(lam)
+    # grounded Green's function of the chain in closed form (potential of i
+    # for a unit current j -> last node = distance of max(i,j) to the end),
+    # doubly centred = the pseudo-inverse
+    idx = np.arange(n)
+    Gr = (n - 1 - np.maximum(idx[:, None], idx[None, :])).astype(float)
+    P = Gr - Gr.mean(axis=0, keepdims=True) - Gr.mean(axis=1, keepdims=True) \
+        + Gr.mean()
+
+    def describe(nt):
+        return ("on this object effective_resistance(0,%d) = %.9g (exact %d)"
+                % (n - 1, nt.effective_resistance(0, n - 1), n - 1))
+    ev = 1
+    if _check_R(net, n, P, lam, U, rel, what, viol, describe):
+        what += " (object's pseudo-inverse replaced by the exact one)"
+        exc["derived measures judged after replacing a wrong "
+            "pseudo-inverse"] = 1
+    pairs_ = set()
+    for a in (0, n - 1):
+        for b in range(0, n, 1 if n <= 160 else 7):
+            pairs_.add((a, b))
+    for k_ in (1, 2, n // 2 - 1, n - 2, n - 1):
+        for a in (0, 1, n // 3, n // 2, n - 1 - k_):
+            if 0 <= a and a + k_ < n:
+                pairs_.add((a, a + k_))
+                pairs_.add((a + k_, a))
+    for i in range(n - 1):
+        pairs_.add((i, i + 1))
+    got = {pq: net.effective_resistance(*pq) for pq in sorted(pairs_)}
+    ev += len(got)
+    bad = [(pq, g) for pq, g in got.items()
+           if not abs(g - abs(pq[0] - pq[1])) <= rel * abs(pq[0] - pq[1])]
+    if bad:
+        (a, b), g = max(bad, key=lambda t: abs(t[1] - abs(t[0][0] - t[0][1])))
+        viol.append(V("ResNetwork.effective_resistance:law:series:long-chain",
+                      "%s: nodes %d and %d are %d apart (%d of %d sampled "
+                      "pairs wrong)" % (what, a, b, abs(a - b), len(bad),
+                                        len(got)), g, abs(a - b)))
+    foster = sum(got[(i, i + 1)] for i in range(n - 1))
+    ev += 1
+    if not abs(foster - (n - 1)) <= 4 * rel * (n - 1):
+        viol.append(V("ResNetwork.effective_resistance:law:foster:long-chain",
+                      what, foster, n - 1))
+    if n <= 160:
+        for a in (0, n - 1):
+            ev += 1
+            _cmp(viol, net, "effective_resistance_closeness_centrality",
+                 (a,), (n - 1) / sum(got[(a, b)] for b in range(n)), what,
+                 RT, AT)
+    else:
+        exc["closeness on chains > 160 nodes (one full row of pair queries "
+            "per node is too slow)"] = 1
+    # R of a unit chain: entries up to ~ n/3
+    f32 = 4 * EPS32 * (n / 3.0) * 2
+    nodes = sorted({0, 1, n // 3, n // 2, n - 2, n - 1})
+    vc = [net.vertex_current_flow_betweenness(i) for i in nodes]
+    exp = np.array([float(C.chain_vcfb(n, i)) for i in nodes])
+    ev += len(nodes)
+    if not np.all(np.abs(np.array(vc) - exp) <= 2e-6 + 2e-5 * exp + f32):
+        k_ = int(np.argmax(np.abs(np.array(vc) - exp)))
+        viol.append(V("ResNetwork.vertex_current_flow_betweenness:value:real:"
+                      "long-chain", "%s node %d" % (what, nodes[k_]), vc[k_],
+                      exp[k_]))
+    if n <= 320:
+        ec = np.asarray(net.edge_current_flow_betweenness(), dtype=float)
+        expm = np.zeros((n, n))
+        for i in range(n - 1):
+            expm[i, i + 1] = expm[i + 1, i] = float(C.chain_ecfb(n, i))
+        ev += 1
+        if ec.shape != (n, n) or not np.all(
+                np.abs(ec - expm) <= 2e-6 + 2e-5 * expm + f32 * (expm > 0)):
+            i, j = np.argwhere(~(np.abs(ec - expm) <= 2e-6 + 2e-5 * expm +
+                                 f32 * (expm > 0)))[0]
+            viol.append(V("ResNetwork.edge_current_flow_betweenness:value:"
+                          "real:long-chain", "%s link (%d,%d)" % (what, i, j),
+                          ec[i, j], expm[i, j]))
+    else:
+        exc["edge betweenness on chains > 320 nodes (N^4 kernel)"] = 1
+    return {"viol": viol, "evals": ev, "excluded": exc,
+            "sig": ("chain", n, round(got[(0, n - 1)], 6),
+                    round(float(vc[len(vc) // 2]), 6))}
+
+
+def _scale_wide_hist(updates):
+    """Histories switching between a narrow and two wide assignments of the
+    dumbbell network (only the bridge changes)."""
+    n = 12
+    linksets = [C.dumbbell(1)[1], C.dumbbell(10 ** 6)[1],
+                C.dumbbell(10 ** 7)[1]]
+    k = len(updates)
+    plans = [[b] * (k + 1) for b in UNIFORM]
+    Y = np.array([[float(x) for x in r]
+                  for r in C.admittance(n, linksets[2])])
+    rel = _wide_rel(_spectrum(Y)[0])
+    return _history(n, linksets, updates, plans,
+                    sum(1 + len(b) for b in UNIFORM), ("dumbbell",),
+                    er_rtol=rel)
+
+
 def fam_scale(case):
+    if case[0] == "wide":
+        return _scale_wide(case[1])
+    if case[0] == "longchain":
+        return _scale_longchain(case[1])
+    if case[0] == "widehist":
+        return _scale_wide_hist(case[1])
     if case[0] == "net":
         try:
             return _scale_net(case[1], case[2])
@@ -863,6 +1154,14 @@ def run(ctx):
     cases = [["net", b, n] for n in sizes for b in ("ladder", "ring", "tree")]
     cases += [["net", "chain", n] for n in (21, 24, 25, 26, 34)]
     cases.sort(key=lambda c: c[2])
+    C.selfcheck_wide()
+    cases += [["wide", name] for name in ("chain3-1-1e7", "chain4-1e-3-1-1e7",
+                                          "star-1e-3..1e6", "dumbbell-1e5",
+                                          "dumbbell-1e6", "dumbbell-1e7")]
+    cases += [["longchain", n]
+              for n in [150, 300] + ([600] if thorough else [])]
+    cases += [["widehist", u] for u in ([1], [1, 0], [2, 0], [1, 0, 1],
+                                        [1, 0, 2, 0], [2, 1, 0, 1])]
     for k in range(5):
         for ups in itertools.product(range(3), repeat=k):
             cases.append(["hist", list(ups)])
